@@ -19,6 +19,7 @@ import (
 	"errors"
 	"net"
 	"sync"
+	"sync/atomic"
 	"time"
 
 	"github.com/caddyserver/caddy/v2"
@@ -72,7 +73,10 @@ type Connection struct {
 	frozenOffset int
 	matching     bool
 
-	bytesRead, bytesWritten uint64
+	// updated by whichever goroutines read from and write to the connection
+	// (a proxy's copiers, the consumer of a wrapped listener) while the
+	// handling goroutine reports them
+	bytesRead, bytesWritten atomic.Uint64
 }
 
 var ErrConsumedAllPrefetchedBytes = errors.New("consumed all prefetched bytes")
@@ -111,14 +115,14 @@ func (cx *Connection) Read(p []byte) (n int, err error) {
 	// buffer has been "depleted" so read from
 	// underlying connection
 	n, err = cx.Conn.Read(p)
-	cx.bytesRead += uint64(n)
+	cx.bytesRead.Add(uint64(n))
 
 	return
 }
 
 func (cx *Connection) Write(p []byte) (n int, err error) {
 	n, err = cx.Conn.Write(p)
-	cx.bytesWritten += uint64(n)
+	cx.bytesWritten.Add(uint64(n))
 	return
 }
 
@@ -134,16 +138,17 @@ func (cx *Connection) Wrap(conn net.Conn) *Connection {
 		// Connection as well would make its readers see them twice.
 		buf, offset = nil, 0
 	}
-	return &Connection{
-		Conn:         conn,
-		Context:      cx.Context,
-		Logger:       cx.Logger,
-		buf:          buf,
-		offset:       offset,
-		matching:     cx.matching,
-		bytesRead:    cx.bytesRead,
-		bytesWritten: cx.bytesWritten,
+	wrapped := &Connection{
+		Conn:     conn,
+		Context:  cx.Context,
+		Logger:   cx.Logger,
+		buf:      buf,
+		offset:   offset,
+		matching: cx.matching,
 	}
+	wrapped.bytesRead.Store(cx.bytesRead.Load())
+	wrapped.bytesWritten.Store(cx.bytesWritten.Load())
+	return wrapped
 }
 
 // prefetch tries to read all bytes that a client initially sent us without blocking.
@@ -166,7 +171,7 @@ func (cx *Connection) prefetch() (err error) {
 			cx.buf = append(cx.buf, tmp[:n]...)
 		}
 
-		cx.bytesRead += uint64(n)
+		cx.bytesRead.Add(uint64(n))
 
 		if err != nil {
 			return err
